@@ -7,6 +7,7 @@ THEOREM_NOTE = ("Props/C18.lean: pipeline invariants (valid ids, at most one rea
                 "another is outstanding and the check is not bypassed; a reader is started iff none is processing; when the line is handled the newest request gets it "
                 "unmodified and successful, every earlier one exactly one failed signal, the subsystem is idle again; a handler's result fields and its one-shot callback; "
                 "the blocking wait returns iff its own handler received")
+HANG_IS_VIOLATION = "afterwards the input subsystem is idle again / a blocking wait returns: the implementation hangs on a scenario that must finish"
 ASSUMPTIONS = ASSUME_SESSION + ["hidden (password) requests use the getpass function, replaced through the public set_pass_func"]
 RULE = ("direct scenarios on InputHandler / PasswordInputHandler objects: 1..5 overlapping requests (plain, hidden, with and without bypass) in every issue order, the line delivered "
         "before / after each later request and before / after processing, blocking waits, a fresh request after completion; oracle: an interpreter of the property (refusal and "
@@ -19,7 +20,7 @@ def gen_inputs(rnd):
     for _ in range(rnd.randint(2, 9)):
         r = rnd.random()
         if r < 0.5 and n < 5:
-            ops.append(["req", n, rnd.random() < 0.6, rnd.random() < 0.3]); live.append(n); n += 1
+            ops.append(["req", n, rnd.random() < 0.6, rnd.random() < 0.3, 1 if rnd.random() < 0.2 else 0]); live.append(n); n += 1
         elif r < 0.7: ops.append(["deliver"])
         elif r < 0.9: ops.append(["proc"])
         elif live: ops.append(["wait", rnd.choice(live)])
@@ -59,6 +60,7 @@ def monitor(case, obs):
     if case["op"] != "inputs": return None
     # interpreter of the property
     stack = []; state = {}; processing = False; reader = False; lines = list(case["stdin"]); queue = []     # queue: signals enqueued, not yet processed
+    rearm = {}; skips = {}; reader_started = []
     evs = list(obs["events"]); k = 0
     def take():
         nonlocal k
@@ -68,7 +70,7 @@ def monitor(case, obs):
         if k >= len(evs): break
         e = take()
         if op[0] == "req":
-            _, i, skip, hidden = op
+            _, i, skip, hidden = op[:4]; rearm[i] = op[4] if len(op) > 4 else 0; skips[i] = skip
             state[i] = {"value": None, "received": False, "successful": False, "callbacks": []}
             if stack and not skip:
                 if e[2] != "KeyError": return "request %d was issued while %r were outstanding without bypass and was not refused (%r)" % (i, stack, e)
@@ -97,13 +99,20 @@ def monitor(case, obs):
                         state[win].update(value=line, received=True, successful=True); state[win]["callbacks"].append(line)
                         for j in stack[:-1]: state[j].update(received=True, successful=False)
                         stack = []; processing = False
+                        if rearm.get(win, 0) > 0:
+                            # the callback asks again with the same handler: a fresh outstanding request (the subsystem is idle, so it is accepted and starts a reader)
+                            rearm[win] -= 1
+                            state[win].update(value=None, received=False)
+                            stack = [win]; processing = True; reader_started.append(True)
             if op[0] == "proc":
                 drain()
+                if reader_started: reader = True; del reader_started[:]
             else:
                 i = op[1]
                 if i not in state: continue
                 while not state[i]["received"]:
                     drain()
+                    if reader_started: reader = True; del reader_started[:]
                     if state[i]["received"]: break
                     if reader:       # the blocked main loop lets the reader hand in the next line
                         queue.append(("received", lines.pop(0) if lines else "")); reader = False; continue
